@@ -290,3 +290,54 @@ pub fn media_sig(data: &[u8], flac: bool) -> Result<Vec<(String, String)>, Strin
     }
     Ok(out)
 }
+
+/// Decodes an ID3 text-frame body (encoding byte + text) to a canonical UTF-8 string.
+fn text_meaning(body: &[u8]) -> Option<String> {
+    let (enc, t) = body.split_first()?;
+    let s = match enc {
+        0 => t.iter().map(|b| *b as char).collect::<String>(),
+        3 => String::from_utf8_lossy(t).to_string(),
+        1 | 2 => {
+            let (be, t) = if *enc == 2 {
+                (true, t)
+            } else if t.starts_with(&[0xFF, 0xFE]) {
+                (false, &t[2..])
+            } else if t.starts_with(&[0xFE, 0xFF]) {
+                (true, &t[2..])
+            } else {
+                (false, t)
+            };
+            let u: Vec<u16> = t.chunks_exact(2).map(|c| if be { u16::from_be_bytes([c[0], c[1]]) } else { u16::from_le_bytes([c[0], c[1]]) }).collect();
+            String::from_utf16_lossy(&u)
+        }
+        _ => return None,
+    };
+    Some(s.trim_end_matches('\0').to_string())
+}
+
+/// Like `media_sig`, but text frames (T***, except TXXX) are compared by decoded text, so that a
+/// re-encoding that keeps the meaning (Latin-1 -> UTF-8) is distinguishable from a content change.
+pub fn media_sig_meaning(data: &[u8], flac: bool) -> Result<Vec<(String, String)>, String> {
+    let p = parse(data, flac)?;
+    let tag = parse_tag(data)?;
+    let mut out = Vec::new();
+    if let Some(t) = tag {
+        for f in &t.frames {
+            if f.id == "GEOB" || f.id == "GEO" {
+                if let Some((mime, ..)) = geob(&f.body) {
+                    if is_c2pa_mime(&mime) {
+                        continue;
+                    }
+                }
+            }
+            let h = if f.id.starts_with('T') && f.id != "TXXX" && f.id != "TXX" { text_meaning(&f.body).map(|s| sha(s.as_bytes())).unwrap_or_else(|| sha(&f.body)) } else { sha(&f.body) };
+            out.push((format!("frame:{}", f.id), h));
+        }
+    }
+    for e in &p.elems {
+        if e.kind == "audio" || e.kind.starts_with("flac-meta") || e.kind == "fLaC" {
+            out.push((e.kind.clone(), sha(e.bytes(data))));
+        }
+    }
+    Ok(out)
+}
